@@ -111,3 +111,29 @@ Theorem C06_ledger_reads_the_events :
   Permutation (cdr (snd (step_op P s o))) (cdr (log (st_world (fst (step_op P s o))))).
 Proof. exact cdr_events_of_step. Qed.
 Print Assumptions C06_ledger_reads_the_events.
+
+(** ** whole histories: the ledger of output values, for the collections and adapters of futures
+    (FuturesUnorderedBounded, FuturesUnordered, both ordered queues, the four buffered adapters;
+    [tok_op]: the history builds one of these).  An output is produced when a child answers
+    Ready (or the try-upstream yields an error); handed out when a [ret] event carries it;
+    dropped inside when an [odrop .. in] event names it; parked while it waits in the heap of an
+    ordered queue.  For every history
+
+        parked now ++ handed out so far ++ dropped inside so far   ≡   produced so far *)
+From FB Require Import TokenLedger.
+Theorem C06_outputs_ledger :
+  forall (P : params) (ops : list op),
+  Forall tok_op ops ->
+  Permutation (parked_of (st_coll (reach P ops)) ++ handed_in P init_state ops ++ dropped_inside_in P init_state ops)
+              (produced_in P init_state ops).
+Proof. exact token_ledger. Qed.
+Print Assumptions C06_outputs_ledger.
+
+(** with distinct outputs: none is handed out twice, none is both handed out and dropped inside,
+    none is dropped inside twice *)
+Theorem C06_no_output_twice :
+  forall (P : params) (ops : list op),
+  Forall tok_op ops -> NoDup (produced_in P init_state ops) ->
+  NoDup (parked_of (st_coll (reach P ops)) ++ handed_in P init_state ops ++ dropped_inside_in P init_state ops).
+Proof. exact no_output_twice. Qed.
+Print Assumptions C06_no_output_twice.
